@@ -46,6 +46,7 @@ CLAIMED = {
     'C15': dict(text='Translation validation of n_queens_gen: for every board size in the bound the real binary\'s output is parsed by an independent front end (and the real parser) and the solver decides that the emitted formula and the n-queens specification agree on ALL 2^(n*n) assignments; for n <= 4 the real evaluator\'s truth table is also compared.', design='DESIGN.md 4/C15', category='translation_validation', engine='gencheck', note=TV_NOTE, technique='translation validation: real generator output vs independent specification, equivalence over all assignments decided by z3'),
     'C16': dict(text='Translation validation of max_clique_gen over all simple graphs on <= 3 vertices (one-directional and symmetric), duplicates, self loops, seeded multigraphs, helper-name collisions, x {-u} x {-a}: emitted formula == maximum-clique (all-clique) specification on every vertex subset.', design='DESIGN.md 4/C16', category='translation_validation', engine='gencheck', note=TV_NOTE, technique='translation validation: real generator output vs independent specification, equivalence over all assignments decided by z3'),
     'C17': dict(text='Translation validation of sudoku_gen for r = 1, 2 over a family of puzzle texts (empty, full, short, over-long, contradictory, ASCII and non-ASCII blanks and whitespace) and r = 3 for seeded puzzles: emitted formula == sudoku specification on all assignments (64 / 729 variables).', design='DESIGN.md 4/C17', category='translation_validation', engine='gencheck', note=TV_NOTE, technique='translation validation: real generator output vs independent specification, equivalence over all assignments decided by z3'),
+    'C18': dict(text='Bounded model checking of generate_graph from the random_graph_gen binary\'s MIR (V = 0..3 concrete, E an unknown usize, -u unknown, thread_rng opaque, shuffle an arbitrary permutation given by an unknown one-hot matrix): refused exactly when infeasible, otherwise exactly E distinct edges between distinct vertices with no pair in both orientations under -u, for every permutation; requests, --complete, --convert and --colors are validated through the real binary (for --colors the solver decides both the covering-clique and the k-colourability side).', design='DESIGN.md 4/C18'),
     'C19': dict(text='Bounded model checking of every BDDSet operation (insert, union, intersect, complement, empty, universe, contains) as one inductive step from an arbitrary state: two sets over 2..3 bits with unknown truth tables sharing an environment, distinct or the same object, element an unconstrained usize; post-state equals the reference set operation for every element, the other set is unchanged, queries do not modify, no panic (RefCell borrow counter modelled).',
                 design='DESIGN.md 4/C19'),
     'C20': dict(text='Bounded model checking of retain_choice_bottom_up for every function of k variables and a symbolic filter: direction of implication, identity for Any, ordered/reduced, support.',
